@@ -25,14 +25,18 @@ def sh(cmd, **kw):
     return subprocess.run(cmd, shell=True, capture_output=True, text=True, **kw)
 
 
-BASE = meta.get("base_commit", "223586f")   # seeded patches are diffs against this commit of /repo
-res = {"dir": d, "time": time.strftime("%F %T"), "repo_head": sh("git -C /repo rev-parse --short HEAD").stdout.strip(), "base_commit": BASE}
+# seeded patches are diffs against meta["base_commit"] (default 223586f); they are evaluated on /repo's HEAD
+# (which contains later `fix:` commits): `patch_head.diff` is the same change rebased by hand where the
+# original no longer applies.  SEED_BASE=<commit> forces another base.
+BASE = os.environ.get("SEED_BASE", "HEAD")
+PATCH = "patch_head.diff" if (BASE == "HEAD" and os.path.exists(os.path.join(d, "patch_head.diff"))) else "patch.diff"
+res = {"dir": d, "time": time.strftime("%F %T"), "repo_head": sh("git -C /repo rev-parse --short HEAD").stdout.strip(), "base_commit": BASE, "patch_file": PATCH}
 sh(f"git -C /repo worktree add --detach {wt} {BASE}")
 try:
     e2 = dict(env, PYTHONPATH=wt)
     r = sh(f"/venv/bin/python {d}/demo.py", env=e2, cwd=wt)
     res["demo_clean_exit"] = r.returncode
-    ap_ = sh(f"git -C {wt} apply {d}/patch.diff")
+    ap_ = sh(f"git -C {wt} apply {d}/{PATCH}")
     res["patch_applies"] = ap_.returncode == 0
     if ap_.returncode != 0:
         res["patch_error"] = ap_.stderr[-500:]
